@@ -66,6 +66,28 @@ class NumProxy:
     def __neg__(self):
         return NumProxy(-self.t, self.isint)
 
+    def _real(self, o=None):
+        t = self.t if o is None else self._o(o)
+        return z3.ToReal(t) if z3.is_int(t) else t
+
+    def __mul__(self, o):
+        return NumProxy(self._real() * self._real(o), False)
+
+    __rmul__ = __mul__
+
+    def __truediv__(self, o):
+        if isinstance(o, NumProxy):
+            raise Unmodelled("UDF division by a symbolic value")
+        return NumProxy(self._real() / self._real(o), False)
+
+    def __add__(self, o):
+        return NumProxy(self._real() + self._real(o), False)
+
+    __radd__ = __add__
+
+    def __sub__(self, o):
+        return NumProxy(self._real() - self._real(o), False)
+
     def __floor__(self):
         return self if self.isint else NumProxy(z3.ToInt(self.t), True)
 
@@ -110,6 +132,8 @@ def _to_cell(r, dc, kf):
         c = Cell(FALSE, r.t, "s")
     elif isinstance(r, bool):
         c = lit(r)
+    elif isinstance(r, float) and r != r:
+        c = null_cell("f")  # a UDF returning nan: SQLite stores NULL
     elif isinstance(r, (int, float)):
         c = lit(r)
     else:
@@ -169,7 +193,28 @@ def sqlite_udfs():
             setattr(np_for_udf, k, v)
     np_for_udf.isinf = _scalar_isinf
     np_for_udf.isnan = _scalar_isnan
+
+    def _proxy_list(xs):
+        xs = list(xs)
+        if not all(isinstance(x, (NumProxy, int, float)) and not isinstance(x, bool) for x in xs):
+            raise Unmodelled("UDF aggregate over non-numbers")
+        return [x._real() if isinstance(x, NumProxy) else lit(float(x)).val for x in xs]
+
+    def _np_var(xs):  # numpy.var: population variance
+        v = _proxy_list(xs)
+        mean = z3.Sum(v) / len(v)
+        return NumProxy(z3.Sum([(a - mean) * (a - mean) for a in v]) / len(v), False)
+
+    def _np_median(xs):
+        return NumProxy(pdshim._var_or_median("median", _proxy_list(xs)).val, False)
+
+    def _np_std(xs):
+        raise Unmodelled("std (square root: outside the polynomial fragment)")
+
+    np_for_udf.var, np_for_udf.median, np_for_udf.std = _np_var, _np_median, _np_std
     m = load.private_copy("SQLite", {"numpy": np_for_udf}, tag="udf")
+    # the aggregate classes end in float(numpy.<fn>(...)): float() of a symbolic number is the number itself
+    m.float = lambda v: v if isinstance(v, NumProxy) else float(v)
     conn = _FakeConn()
     m.SQLiteModel().prepare_connection(conn)
     out = {}
@@ -187,5 +232,18 @@ def sqlite_udfs():
             out[name] = _wrap(fn)
         elif name in ("POW", "POWER"):
             out[name] = pdshim._power
+
+    def _wrap_agg(cls):
+        def agg(cells):
+            dc, kf = C.taint(*cells) if cells else (FALSE, FALSE)
+            a = cls()  # the repository's aggregate class: step() per row, finalize() at the end
+            for c in cells:
+                a.step(_to_arg(c))
+            return _to_cell(a.finalize(), dc, kf)
+
+        return agg
+
+    for name, cls in conn.aggs.items():
+        out["AGG:" + name] = _wrap_agg(cls)
     _UDFS = out
     return out
